@@ -1714,3 +1714,60 @@ def rt_redecorate(req):
 
 
 RT['redecorate'] = rt_redecorate
+
+
+def rt_window_resolution(req):
+    """the delete/restore window (finding D6) is closed again by the time discovery runs user code to resolve the callee:
+    thread A is parked inside a property read during resolution; thread B then sees the function with its __wrapped__"""
+    from . import scenarios
+    f = scenarios.resolving_wrapped
+    inside, resume = threading.Event(), threading.Event()
+    res = {}
+
+    def tick():
+        if threading.current_thread().name == 'A' and not inside.is_set():
+            inside.set()
+            resume.wait(5)
+    with warnings.catch_warnings():
+        warnings.simplefilter('ignore')
+        alone = (str(inspect.signature(f)), str(sigtools.signature(f, auto=False)))
+    scenarios.TICK = tick
+    try:
+        def a():
+            try:
+                with warnings.catch_warnings():
+                    warnings.simplefilter('ignore')
+                    res['A'] = str(sigtools.signature(f))
+            except Exception as e:  # noqa
+                res['A'] = 'raised ' + type(e).__name__
+
+        def b():
+            try:
+                with warnings.catch_warnings():
+                    warnings.simplefilter('ignore')
+                    res['B'] = (hasattr(f, '__wrapped__'), str(inspect.signature(f)), str(sigtools.signature(f, auto=False)))
+            except Exception as e:  # noqa
+                res['B'] = 'raised ' + type(e).__name__
+        ta = threading.Thread(target=a, name='A')
+        ta.start()
+        reached = inside.wait(5)
+        tb = threading.Thread(target=b, name='B')
+        tb.start()
+        tb.join(5)
+        resume.set()
+        ta.join(5)
+    finally:
+        scenarios.TICK = None
+        resume.set()
+    problems = []
+    if not reached:
+        problems.append('window-resolution-harness: thread A never reached the property')
+    elif res.get('B') != (True,) + alone:
+        problems.append('window-during-resolution: while another thread is resolving the callee of a functools.wraps function (inside user code), '
+                        'this thread sees (has __wrapped__, inspect.signature, signature(auto=False)) = %s; alone %s' % (res.get('B'), (True,) + alone))
+    if not hasattr(f, '__wrapped__'):
+        problems.append('not-restored: f lost __wrapped__ for good')
+    return ('ok', tuple(problems))
+
+
+RT['window_resolution'] = rt_window_resolution
